@@ -228,7 +228,7 @@ func TestC01(t *testing.T) {
 	st.Assumption("unit prices and fee-state bytes are taken from the real fee manager (checked separately by C13)")
 	st.Assumption("replay protection switched off here (isNormalOp=false); decided by C09")
 	rapid.Check(t, func(rt *rapid.T) {
-		c := genBlockCase(rt, genOpts{maxTxs: 14, allowInvalid: true, allowSponsorK: true, oddPerms: true})
+		c := genBlockCase(rt, genOpts{maxTxs: 14, allowInvalid: true, allowSponsorK: true, oddPerms: true, yields: true})
 		vstat.Run(rt, st, c, func() error { return c01Run(c, st) })
 	})
 }
